@@ -1517,3 +1517,37 @@ package machine
 //@   ensures locks: unlocked(m.tracersMx) && m.schemaMx == old(m.schemaMx)
 //@   loop 1 invariant true
 //@   loop 2 invariant locks: rlocked(m.tracersMx) && m.schemaMx == old(m.schemaMx) && 0 <= i && (forall k int :: 0 <= k && k < len(m.tracers) ==> m.tracers[k] != nil)
+
+// ---- C20: the abstract machine behind the wait helpers (interface contracts) ----
+// Assumed of every implementation of Api. Every call is numbered (ghost.apiSeq);
+// the latest mutation result and the latest answers are recorded, so a helper's
+// result can be tied to what the machine reported, and the order of a
+// subscription and a mutation can be stated.
+//@ func (a Api) EvAdd(event *Event, states S, args A) (r Result)
+//@   trusted interface contract of the abstract machine
+//@   assigns ghost.apiSeq, ghost.mutSeq, ghost.mutRes
+//@   ensures rec: ghost.apiSeq == old(ghost.apiSeq) + 1 && ghost.mutSeq == ghost.apiSeq && ghost.mutRes == r
+//@ func (a Api) EvRemove(event *Event, states S, args A) (r Result)
+//@   trusted interface contract of the abstract machine
+//@   assigns ghost.apiSeq, ghost.mutSeq, ghost.mutRes
+//@   ensures rec: ghost.apiSeq == old(ghost.apiSeq) + 1 && ghost.mutSeq == ghost.apiSeq && ghost.mutRes == r
+//@ func (a Api) Is(states S) (r bool)
+//@   trusted interface contract of the abstract machine
+//@   assigns ghost.apiSeq, ghost.ansSeq, ghost.ans
+//@   ensures rec: ghost.apiSeq == old(ghost.apiSeq) + 1 && ghost.ansSeq == ghost.apiSeq && (ghost.ans == 1 <==> r) && (ghost.ans == 0 || ghost.ans == 1)
+//@ func (a Api) Not(states S) (r bool)
+//@   trusted interface contract of the abstract machine
+//@   assigns ghost.apiSeq, ghost.ansSeq, ghost.ans
+//@   ensures rec: ghost.apiSeq == old(ghost.apiSeq) + 1 && ghost.ansSeq == ghost.apiSeq && (ghost.ans == 1 <==> r) && (ghost.ans == 0 || ghost.ans == 1)
+//@ func (a Api) WhenQueue(tick Result) (r <-chan struct{})
+//@   trusted interface contract of the abstract machine
+//@   assigns ghost.apiSeq, ghost.wqTick
+//@   ensures rec: ghost.apiSeq == old(ghost.apiSeq) + 1 && ghost.wqTick == tick
+//@ func (a Api) WhenTicks(state string, ticks int, ctx context.Context) (r <-chan struct{})
+//@   trusted interface contract of the abstract machine
+//@   assigns ghost.apiSeq, ghost.subSeq
+//@   ensures rec: ghost.apiSeq == old(ghost.apiSeq) + 1 && ghost.subSeq == ghost.apiSeq
+//@ func (a Api) Tick(state string) (r uint64)
+//@   trusted interface contract of the abstract machine
+//@   assigns ghost.apiSeq
+//@   ensures rec: ghost.apiSeq == old(ghost.apiSeq) + 1
